@@ -99,9 +99,19 @@ def build_frame(spec):
     return fr
 
 
+WIRE_FIELDS = {
+    'SETUP': ('complete', 'respond', 'data'), 'LEASE': ('n', 'code'), 'KEEPALIVE': ('respond', 'data'),
+    'REQUEST_RESPONSE': ('follows', 'data'), 'REQUEST_FNF': ('follows', 'data'), 'REQUEST_STREAM': ('follows', 'n', 'data'),
+    'REQUEST_CHANNEL': ('follows', 'complete', 'n', 'data'), 'REQUEST_N': ('n',), 'CANCEL': (), 'PAYLOAD': ('follows', 'complete', 'data'),
+    'ERROR': ('code',), 'METADATA_PUSH': ('data',), 'RESUME': (), 'RESUME_OK': (),
+}
+
+
 def recv_token(spec, beh):
+    keep = WIRE_FIELDS[spec['ty']]
+    spec = {k: v for k, v in spec.items() if k in keep or k in ('ty', 'sid')}
     b = lambda x: '1' if spec.get(x) else '0'
-    nxt = spec.get('next', False)
+    nxt = False
     if spec['ty'] == 'PAYLOAD':
         nxt = bool(spec.get('data'))      # the wire recomputes `next` from content
     return 'RECV:%s:%d:%s%s%s%s:%d:%d:%s:%s' % (spec['ty'], spec['sid'], b('follows'), b('complete'), '1' if nxt else '0', b('respond'),
